@@ -24,7 +24,7 @@ from .. import kinds
 from .. import seqterm as S
 from ..dispatch import Cond, Slicer, flat
 from ..model import model_of
-from ..siblings import get_siblings
+from ..siblings import get_siblings, undecided
 from ..source import AnalysisError, calls_in, dotted, kwarg, norm, qual_of
 from .c07 import leaf_visitors
 from .c10 import _clone_rule
@@ -194,6 +194,11 @@ def run(chk):
         dom = "COLS" if "_cache.cols" in t else "VIS" if ("uuid_to_name" in t or "name_to_uuid" in t) else None
         ok = dom is not None and all(order[dom] >= order[n_] for n_ in need)
         mod = vb if name == "alias" else cm
+        from ..source import lost_tokens as _lost
+
+        if dom is None and not _lost(mod, fnode):
+            chk.undecided.append(f"R6: the key set `{name}` builds Alias.uuid_map over is not recognised (`{t[:60]}`)")
+            continue
         chk.ob("R6", mod, fnode, f"{name} builds uuid_map over {dom}; consumers index it unguarded over {sorted(need)}", ok,
                f"`{name}` builds Alias.uuid_map over {dom or 'an unknown set'} but Cache.update indexes it without a guard for every key in "
                f"{sorted(need)}: a column outside the map (e.g. a hidden one) raises KeyError")  # fmt: skip
@@ -201,6 +206,8 @@ def run(chk):
     # ---- R7
     for name in ("cache", "polars", "sql"):
         t = sib.terms(name, al)
+        if undecided(chk, "R7", t, f"Alias in {name}"):
+            continue
         chk.ob("R7", sib.cfgs[name].module, sib.cfgs[name].func, f"{name} Alias: SEL = {S.show(t['SEL']['nf'])}, PART = {S.show(t['PART']['nf'])}",
                t["SEL"]["nf"] == S.IN and t["PART"]["nf"] == S.PART,
                f"{name}: alias changes the visible / grouping columns ({S.show(t['SEL']['nf'])}, {S.show(t['PART']['nf'])})")  # fmt: skip
